@@ -120,8 +120,7 @@ def generate(harness_names):
               '  description = CC $out', '']
     lines += ['rule redefine', '  command = objcopy --redefine-syms=$syms $in $out', '  description = OBJCOPY $out', '']
     lines += ['rule ar', '  command = rm -f $out && ar rcs $out $in', '  description = AR $out', '']
-    lines += ['rule link', '  command = $cxx $flags -MD -MF $out.d $in $libs -o $out', '  depfile = $out.d', '  deps = gcc',
-              '  description = LINK $out', '']
+    lines += ['rule link', '  command = $cxx $flags $in $libs -o $out', '  description = LINK $out', '']
     need_cfg = sorted({HARNESSES[h]['config'] for h in harness_names})
     for cfg in need_cfg:
         c = CONFIGS[cfg]
@@ -152,9 +151,13 @@ def generate(harness_names):
         cxx = c['cxx']
         base = c['cflags'].replace('-fsanitize=fuzzer-no-link,', '-fsanitize=')
         flags = ' '.join(['-std=gnu++17', base, d['cxxflags']] + incs + ['-I' + os.path.join(VERIF, 'vlib')])
-        ins = [os.path.join(VERIF, d['src'])] + [os.path.join(VERIF, e) for e in d['extra']] + [lib]
-        lines += ['build %s: link %s' % (nesc(out), ' '.join(nesc(i) for i in ins)), '  cxx = ' + cxx,
-                  '  flags = ' + flags, '  libs = %s -lpthread -ldl -lrt' % d['libs'], '']
+        hobjs = []
+        for src in [d['src']] + d['extra']:
+            so = os.path.join(root, d['config'], 'hobj', h, os.path.basename(src) + '.o')
+            lines += ['build %s: cc %s' % (nesc(so), nesc(os.path.join(VERIF, src))), '  cc = ' + cxx, '  flags = ' + flags]
+            hobjs.append(so)
+        lines += ['build %s: link %s' % (nesc(out), ' '.join(nesc(i) for i in hobjs + [lib])), '  cxx = ' + cxx,
+                  '  flags = ' + base, '  libs = %s -lpthread -ldl -lrt' % d['libs'], '']
     path = os.path.join(root, 'build.ninja')
     text = '\n'.join(lines) + '\n'
     old = open(path).read() if os.path.exists(path) else None
